@@ -15,6 +15,7 @@ import (
 	"go/token"
 	"go/types"
 	"os"
+	"regexp"
 	"sort"
 	"strconv"
 	"strings"
@@ -99,6 +100,8 @@ var cpaths = []string{
 	"y/go", "a/3d", "b/3d", "x/ty-pe", "x/type",
 }
 
+var itemQualifier = regexp.MustCompile(`([A-Za-z_][A-Za-z_0-9]*)\.Item\b`)
+
 type op struct {
 	kind  string
 	paths []string // package paths referenced, in the order they appear in the text
@@ -145,6 +148,10 @@ func buildOps() []op {
 			return snippet.ID(types.Type(types.NewMap(k, types.NewSlice(types.NewPointer(v)))))
 		}, func(n func(string) string) string { return "map[" + n(p) + ".K][]*" + n(q) + ".V" }})
 	}
+	// a VALUE literal (reflect route) holding types that share package name and type name across two
+	// packages; its exact layout is C10's business: here only the qualifiers in front of ".Item" are judged
+	ops = append(ops, op{"value-twins", []string{"verif/mc/pipe", "verif/mc/pipe/cla/model", "verif/mc/pipe/clb/model"},
+		func() snippet.Snippet { return snippet.Value(pipe.TwinsValue()) }, nil})
 	ops = append(ops, op{"own", nil, func() snippet.Snippet { return snippet.ID(gengotypes.Ref(target, "Own")) },
 		func(n func(string) string) string { return "Own" }})
 	ops = append(ops, op{"own-typelit", nil, func() snippet.Snippet {
@@ -228,9 +235,17 @@ func replaySeqAs(c *core.Ctx, seq []int, report bool, cs Case, prefix string) (k
 		if _, has := imports[target]; has {
 			fail("", "after op %d the file's own package is registered as an import", step)
 		}
-		want := o.text(func(p string) string { return imports[p] })
-		if got := buf.String(); got != want && ok {
-			fail("", "op %d rendered %q, want %q (names %v)", step, got, want, imports)
+		if o.text == nil {
+			quals := map[string]int{}
+			for _, m := range itemQualifier.FindAllStringSubmatch(buf.String(), -1) {
+				quals[m[1]]++
+			}
+			na, nb := imports["verif/mc/pipe/cla/model"], imports["verif/mc/pipe/clb/model"]
+			if len(quals) != 2 || quals[na] == 0 || quals[na] != quals[nb] {
+				fail("", "op %d rendered %q: the qualifiers in front of .Item are %v, want %q and %q equally often (names %v)", step, buf.String(), quals, na, nb, imports)
+			}
+		} else if want := o.text(func(p string) string { return imports[p] }); buf.String() != want && ok {
+			fail("", "op %d rendered %q, want %q (names %v)", step, buf.String(), want, imports)
 		}
 		if !ok {
 			return "", false
@@ -467,7 +482,7 @@ func run(c *core.Ctx) {
 		}
 		checkPath(c, strings.Join(parts, "/"))
 	})
-	depth := c.Pick(3, 4)
+	depth := c.Pick(3, 5)
 	c.Bound("collision_paths", cpaths)
 	c.Bound("reference_ops", len(allOps))
 	c.Bound("bfs_depth", depth)
@@ -541,7 +556,7 @@ func init() {
 	core.RegisterWorker("c03sess", sessWorker)
 	core.Register(&core.Prop{
 		ID: "C03", Level: "model_checking", Run: run, Replay: replay,
-		Rule: "level 1: every import path of <=3 segments over the segment alphabet (keywords, digit-initial, vN, apis/domain, punctuation, underscore); level 2: breadth-first search over sequences of reference operations (Ref, string ID, PkgExpose, generic instantiation with a nested path, type literal via go/types, own package) on 19 colliding paths (incl. pairs whose common candidate is a keyword or starts with a digit) through the real rawNamer+SnippetWriter, states deduplicated by the tracker's path->name map, the bijection/validity/none-missing/none-unused/stable-name/rendered-text invariants checked after every operation; level 2b: every history of 2 and 3 tracker sessions (8-session alphabet of colliding references) inside one fresh child process, same invariants in every session; level 3: every sequence of <=N paths rendered through the real pipeline and the written file parsed (import specs == qualifiers used, each resolving to the rendered path). Non-trivial = multi-segment paths / sequences >=2; states = distinct tracker maps",
+		Rule: "level 1: every import path of <=3 segments over the segment alphabet (keywords, digit-initial, vN, apis/domain, punctuation, underscore); level 2: breadth-first search over sequences of reference operations (Ref, string ID, PkgExpose, generic instantiation with a nested path, type literal via go/types, a value literal holding same-named types of two same-named packages, own package) on 19 colliding paths (incl. pairs whose common candidate is a keyword or starts with a digit) through the real rawNamer+SnippetWriter, states deduplicated by the tracker's path->name map, the bijection/validity/none-missing/none-unused/stable-name/rendered-text invariants checked after every operation; level 2b: every history of 2 and 3 tracker sessions (8-session alphabet of colliding references) inside one fresh child process, same invariants in every session; level 3: every sequence of <=N paths rendered through the real pipeline and the written file parsed (import specs == qualifiers used, each resolving to the rendered path). Non-trivial = multi-segment paths / sequences >=2; states = distinct tracker maps",
 		Assumptions: []string{
 			"'/vendor/' paths are outside the alphabet",
 			"two tracker states with equal path->name maps have equal futures",
